@@ -7,6 +7,7 @@ from typing import Optional
 from cryptojwt import as_unicode
 from cryptojwt.key_bundle import keybundle_from_local_file
 
+from idpyoidc.client.current import response_info
 from idpyoidc import verified_claim_name
 from idpyoidc.client.defaults import DEFAULT_RESPONSE_MODE
 from idpyoidc.client.exception import ConfigurationError
@@ -436,7 +437,9 @@ class StandAloneClient(Client):
             # got it from the wrong bloke
             raise ValueError("Impersonator {}".format(issuer))
 
-        _context.cstate.update(authorization_response["state"], authorization_response)
+        _context.cstate.update(
+            authorization_response["state"], response_info(authorization_response)
+        )
         _srv.update_service_context(authorization_response, key=authorization_response["state"])
         return authorization_response
 
